@@ -39,10 +39,13 @@ def run_vreplay(args, profile='debug', timeout=120):
         return {'status': 'bad-output', 'stdout': out[-500:], 'stderr': p.stderr[-500:], 'rc': p.returncode}
 
 
+_TAG = ['']
+
+
 def save_witness(pid, key, obj):
     d = os.path.join(common.VERIF, 'evidence', 'replays', pid)
     os.makedirs(d, exist_ok=True)
-    name = re.sub(r'[^A-Za-z0-9_.=+-]', '_', key)[:100] + '.json'
+    name = re.sub(r'[^A-Za-z0-9_.=+-]', '_', key)[:100] + (('.' + _TAG[0]) if _TAG[0] else '') + '.json'
     path = os.path.join(d, name)
     with open(path, 'w') as f:
         json.dump(obj, f, indent=1, default=str)
@@ -81,8 +84,9 @@ def confirm_op(vio, pid):
         vio['reproduced'] = False
 
 
-def confirm(report):
+def confirm(report, tag=''):
     """replays every violation that carries a witness; drops non-reproducing ones into an inconclusive obligation"""
+    _TAG[0] = tag
     keep = []
     seen = {}
     uniq = []
@@ -93,6 +97,9 @@ def confirm(report):
         seen[vio['key']] = vio
         uniq.append(vio)
     for vio in uniq:
+        if 'reproduced' in vio and vio.get('replay'):
+            keep.append(vio)          # already confirmed (in the worker that found it)
+            continue
         route = None
         if 'witness' in vio and vio['witness'] and 'instruction' in vio['witness']:
             route = confirm_op
